@@ -264,8 +264,23 @@ impl EGraph {
                     for (rule_id, _rule) in rules.iter() {
                         let rule_info = record.rule_info.get_mut(rule_id).unwrap();
 
-                        let matches: Vec<Value> =
+                        let mut matches: Vec<Value> =
                             std::mem::take(rule_info.matches.lock().unwrap().as_mut());
+                        // Residual matches live outside the database, so rebuilding does
+                        // not reach them: bring their ids up to date before they are
+                        // offered again or applied.
+                        let tys = rule_info
+                            .free_vars
+                            .iter()
+                            .map(|v| v.sort.column_ty(&self.backend))
+                            .collect::<Vec<_>>();
+                        if !tys.is_empty() {
+                            for row in matches.chunks_mut(tys.len()) {
+                                for (v, ty) in row.iter_mut().zip(tys.iter()) {
+                                    *v = self.backend.get_canon_repr(*v, *ty);
+                                }
+                            }
+                        }
                         let mut matches = Matches::new(matches, rule_info.free_vars.clone());
                         rule_info.should_seek =
                             record
